@@ -359,6 +359,150 @@ theorem prim_box_wf' (ray : TemporalRay ℝ) (mn : ℝ) (p : RPrim ℝ) (hok : p
       rw [Tree.aabb_contains_iff, triBox, tri_box_min, tri_box_max]
       simp
 
+/-! ### first-hit contract, and the BVH that `NewBVHTree` builds, against the hit list in its original order -/
+
+/-- the first hit at or beyond `mn` that each primitive reports when the range allows it -/
+noncomputable def RPrim.first (ray : TemporalRay ℝ) (mn : ℝ) : RPrim ℝ → Option ℝ
+  | .sphere _ _ ct r =>
+    if sDisc ct r ray < 0 then none
+    else if mn ≤ sRoot1 ct r ray then some (sRoot1 ct r ray)
+    else if mn ≤ sRoot2 ct r ray then some (sRoot2 ct r ray) else none
+  | .rect bl tr d =>
+    if rT d ray < mn then none
+    else if rX d ray < bl.x ∨ tr.x < rX d ray ∨ rY d ray < bl.y ∨ tr.y < rY d ray then none
+    else some (rT d ray)
+  | .tri a b c => ((triHit a b c ray mn (tVal a b c ray.Ray mn)).map HitOut.dist)
+
+/-- `Hit(ray, mn, mx)` reports the primitive's first hit beyond `mn` exactly when it is `≤ mx` (spheres: the
+    nearer root first, the farther one only if the nearer is below `mn`; triangles at `mn = 0`) -/
+theorem prim_first_hit (ray : TemporalRay ℝ) (hu : ray.direction.LengthSquared = 1) (p : RPrim ℝ) (mn mx : ℝ)
+    (hok : p.Ok ray mn) :
+    p.hitDist ray mn mx = (RPrim.first ray mn p).bind (fun d => if d ≤ mx then some d else none) := by
+  cases p with
+  | sphere cs ce ct r =>
+    have ha : 0 < sA ray := by
+      have : sA ray = ray.direction.LengthSquared := rfl
+      rw [this, hu]; norm_num
+    simp only [RPrim.hitDist, RPrim.hit, RPrim.first, sphereHit_eq, Nat.cast_zero]
+    by_cases c0 : sDisc ct r ray < 0
+    · simp [c0]
+    · have h12 : sRoot1 ct r ray ≤ sRoot2 ct r ray := by
+        unfold sRoot1 sRoot2
+        apply div_le_div_of_nonneg_right _ ha.le
+        linarith [Real.sqrt_nonneg (sDisc ct r ray)]
+      simp only [c0, if_false, Bool.or_eq_true, decide_eq_true_eq]
+      by_cases c1 : mn ≤ sRoot1 ct r ray
+      · by_cases c2 : sRoot1 ct r ray ≤ mx
+        · have : ¬ (sRoot1 ct r ray < mn ∨ mx < sRoot1 ct r ray) := not_or.mpr ⟨not_lt.mpr c1, not_lt.mpr c2⟩
+          simp [this, c1, c2]
+        · have e1 : (sRoot1 ct r ray < mn ∨ mx < sRoot1 ct r ray) := Or.inr (not_le.mp c2)
+          have e2 : (sRoot2 ct r ray < mn ∨ mx < sRoot2 ct r ray) := Or.inr (lt_of_lt_of_le (not_le.mp c2) h12)
+          simp [e1, e2, c1, c2]
+      · have e1 : (sRoot1 ct r ray < mn ∨ mx < sRoot1 ct r ray) := Or.inl (not_le.mp c1)
+        by_cases c3 : mn ≤ sRoot2 ct r ray
+        · by_cases c4 : sRoot2 ct r ray ≤ mx
+          · have : ¬ (sRoot2 ct r ray < mn ∨ mx < sRoot2 ct r ray) := not_or.mpr ⟨not_lt.mpr c3, not_lt.mpr c4⟩
+            simp [e1, this, c1, c3, c4]
+          · have e2 : (sRoot2 ct r ray < mn ∨ mx < sRoot2 ct r ray) := Or.inr (not_le.mp c4)
+            simp [e1, e2, c1, c3, c4]
+        · have e2 : (sRoot2 ct r ray < mn ∨ mx < sRoot2 ct r ray) := Or.inl (not_le.mp c3)
+          simp [e1, e2, c1, c3]
+  | rect bl tr d =>
+    simp only [RPrim.hitDist, RPrim.hit, RPrim.first, rectHit_eq, Bool.or_eq_true, decide_eq_true_eq]
+    by_cases c1 : rT d ray < mn
+    · simp [c1]
+    · by_cases c2 : mx < rT d ray
+      · by_cases c3 : rX d ray < bl.x ∨ tr.x < rX d ray ∨ rY d ray < bl.y ∨ tr.y < rY d ray
+        · simp [c1, c2, c3]
+        · simp [c1, c2, c3, not_le.mpr c2]
+      · by_cases c3 : rX d ray < bl.x ∨ tr.x < rX d ray ∨ rY d ray < bl.y ∨ tr.y < rY d ray
+        · have c3' : ((rX d ray < bl.x ∨ tr.x < rX d ray) ∨ rY d ray < bl.y) ∨ tr.y < rY d ray := by tauto
+          simp [c1, c2, c3, c3']
+        · have c3' : ¬ (((rX d ray < bl.x ∨ tr.x < rX d ray) ∨ rY d ray < bl.y) ∨ tr.y < rY d ray) := by tauto
+          simp [c1, c2, c3, c3', not_lt.mp c2]
+  | tri a b c =>
+    have hmn : mn = 0 := hok
+    subst hmn
+    simp only [RPrim.hitDist, RPrim.hit, RPrim.first, triHit, rayIntersectsTri_eq]
+    split_ifs with c0 c1 c2 c3 c4 c5 <;> simp_all
+
+/-- the guarded primitive function agrees with the real one on lists of admissible primitives -/
+theorem listHit_guard (ray : TemporalRay ℝ) (mn : ℝ) (g : RPrim ℝ → ℝ → ℝ → Option ℝ)
+    (hg : ∀ p, p.Ok ray mn → ∀ lo hi, g p lo hi = p.hitDist ray lo hi) :
+    ∀ (l : List (RPrim ℝ)), (∀ p ∈ l, p.Ok ray mn) → ∀ hi,
+      listHit (RPrim.hitDist ray) l mn hi = listHit g l mn hi := by
+  intro l
+  induction l using List.reverseRecOn with
+  | nil => intro _ _; rfl
+  | append_singleton l x ih =>
+    intro h hi
+    rw [listHit_append, listHit_append, listHit_single, listHit_single, ih (fun p hp => h p (by simp [hp]))]
+    rw [hg x (h x (by simp))]
+
+/-- **End to end.**  For every non-empty list of spheres, XY-rectangles and triangles, every outcome of the random
+    axis choice and unstable sort (`reorder`), every unit-direction ray and non-empty range: the tree `NewBVHTree`
+    builds answers `Hit` exactly as `HitList.Hit` on the ORIGINAL list (flag and nearest distance) — the primitive
+    contract is proved, not assumed. -/
+theorem prims_bvh_built_hit_eq_hitlist (ray : TemporalRay ℝ) (hu : ray.direction.LengthSquared = 1)
+    (reorder : List (RPrim ℝ) → List (RPrim ℝ)) (hre : ∀ l, (reorder l).Perm l)
+    (objs : List (RPrim ℝ)) (hne : objs ≠ []) (mn mx : ℝ) (hlt : mn < mx) (hok : ∀ p ∈ objs, p.Ok ray mn) :
+    ∃ t, bvhBuild reorder RPrim.box nodeBox objs.length objs = some t ∧
+      bvhHit ray t mn mx = listHit (RPrim.hitDist ray) objs mn mx := by
+  classical
+  obtain ⟨t, h1, h2, h3⟩ := bvh_build_covers BoxSub RPrim.box nodeBox reorder hre
+    (fun a b => by
+      unfold nodeBox
+      have e1 := aabb_encapsulate_contains (NewEmptyAABB : Box) a
+      have e2 := aabb_encapsulate_contains ((NewEmptyAABB : Box).EncapsulateBounds a) b
+      exact ⟨⟨e2.2 _ e1.1.1, e2.2 _ e1.1.2⟩, e2.1⟩)
+    (fun _ _ _ => boxSub_trans) objs hne (fun p hp => prim_box_wf' ray mn p (hok p hp))
+  refine ⟨t, h1, ?_⟩
+  have hokt : ∀ p ∈ t.leaves, p.Ok ray mn := fun p hp => hok p ((h3 p).mp hp)
+  rw [prims_bvh_hit_eq_hitlist ray hu t h2 mn mx hlt hokt]
+  let g : RPrim ℝ → ℝ → ℝ → Option ℝ := fun p lo hi => if p.Ok ray mn then p.hitDist ray lo hi else none
+  have hg : ∀ p, p.Ok ray mn → ∀ lo hi, g p lo hi = p.hitDist ray lo hi := by
+    intro p hp lo hi; simp only [g, hp, if_true]
+  rw [listHit_guard ray mn g hg t.leaves hokt, listHit_guard ray mn g hg objs hok]
+  apply listHit_congr_mem (fun p => if p.Ok ray mn then RPrim.first ray mn p else none) g mn
+  · intro p hi
+    by_cases hp : p.Ok ray mn
+    · simp only [g, hp, if_true]; exact prim_first_hit ray hu p mn hi hp
+    · simp [g, hp]
+  · exact h3
+
+/-! ### the hypothesis `mn < mx` is needed: on an empty-interior range the slab test rejects everything -/
+
+/-- `IntersectsRayInRange(ray, m, m)` is false for every box and ray (`*t_max <= *t_min` already on the first axis) -/
+theorem slab_rejects_point_range (b : Box) (o d : P3) (m : ℝ) : intersectsRayInRange b o d m m = false := by
+  have key : ∀ (oo dd lo hi : ℝ), (slabComponent oo dd m m lo hi).1 = true := by
+    intro oo dd lo hi
+    unfold slabComponent
+    split_ifs
+    · simp
+    · rfl
+    · rw [slabArith_eq]; simp only [decide_eq_true_eq]; exact le_trans (min_le_left _ _) (le_max_left _ _)
+    · rw [slabArith_eq]; simp only [decide_eq_true_eq]; exact le_trans (min_le_left _ _) (le_max_left _ _)
+  unfold intersectsRayInRange
+  simp only [key, if_true]
+
+/-- so a BVH NODE misses whatever the range `[m, m]` holds, while `HitList.Hit` reports a primitive hit at exactly
+    `m`: unit sphere at the origin, ray from (0,0,−5) along +z, range `[4, 4]` — `HitList.Hit` = hit at 4,
+    `BVHNode.Hit` = miss.  (Degenerate range only; `prims_bvh_hit_eq_hitlist` covers every `mn < mx`.) -/
+theorem bvh_differs_on_point_range :
+    let ray : TemporalRay ℝ := ⟨⟨0, 0, -5⟩, ⟨0, 0, 1⟩, 0⟩
+    let p : RPrim ℝ := .sphere ⟨0, 0, 0⟩ ⟨0, 0, 0⟩ ⟨0, 0, 0⟩ 1
+    listHit (RPrim.hitDist ray) [p] 4 4 = some 4 ∧
+    bvhHit ray (.node (nodeBox p.box p.box) (.leaf p) (.leaf p)) 4 4 = none := by
+  intro ray p
+  constructor
+  · have hd : sDisc (⟨0, 0, 0⟩ : P3) 1 ray = 1 := by norm_num [sDisc, sHb, sA, ray, V3.Sub, V3.Dot]
+    have h1 : sRoot1 (⟨0, 0, 0⟩ : P3) 1 ray = 4 := by
+      rw [sRoot1, hd, Real.sqrt_one]; norm_num [sHb, sA, ray, V3.Sub, V3.Dot]
+    rw [listHit_single]
+    simp only [RPrim.hitDist, RPrim.hit, p]
+    rw [sphereHit_eq, hd, h1]; norm_num
+  · simp only [bvhHit, Bvh.hit, slab_rejects_point_range, Bool.not_false, if_true]
+
 /-- a concrete scene meeting every hypothesis: a unit sphere at the origin, hit at parameter 4 by the ray from
     (0,0,−5) along +z; the hit point (0,0,−1) is in the box -/
 example :
